@@ -727,6 +727,48 @@ func (e *c15env) do(tk []string) string {
 		case <-time.After(c15wait + time.Duration(ms%c15readMessageMs)*time.Millisecond):
 			return "timeout"
 		}
+	case len(tk) == 3 && tk[1] == "cdrain":
+		// clients m...: the usual read loop of a caller of Client.Stream — ReadMessage until it returns an
+		// error; every value handed back, in order, then how the loop ended
+		cl, ok := e.cl[tk[2]]
+		if !ok || !cl.manual {
+			return "bad-op"
+		}
+		// canonical form: which value of one channel comes before which value of another is up to the
+		// two forwarders; per channel the order is the property. "drain <k>:<v>,<v>,... ... | <end>"
+		ch := make(chan string, 1)
+		go func() {
+			vals := map[int][]string{}
+			end := "timeout"
+			for n := 0; n < 100000; n++ {
+				f, again := cl.c15frame(onet.StreamingReadOpts{}, true)
+				if f == "undecodable" && again {
+					continue
+				}
+				var k, v int
+				if _, err := fmt.Sscanf(f, "data %d %d", &k, &v); err != nil {
+					end = f
+					break
+				}
+				vals[k] = append(vals[k], strconv.Itoa(v))
+			}
+			var ks []int
+			for k := range vals {
+				ks = append(ks, k)
+			}
+			sort.Ints(ks)
+			out := "drain"
+			for _, k := range ks {
+				out += fmt.Sprintf(" %d:%s", k, strings.Join(vals[k], ","))
+			}
+			ch <- out + " | " + end
+		}()
+		select {
+		case r := <-ch:
+			return r
+		case <-time.After(3 * c15wait):
+			return "drain | timeout"
+		}
 	case len(tk) == 3 && tk[1] == "quiet":
 		// nothing happens for <ms> milliseconds
 		ms, err := strconv.Atoi(tk[2])
@@ -958,6 +1000,22 @@ func c15exec(c *h.Ctx, cs *h.Case) {
 // the property's own oracle (independent of the model): bookkeeping of what
 // the service emitted and what the client received, per connection and channel
 
+// c15frameSeen: a data frame handed to the client of connection n — the next value of its channel, in
+// emission order
+func c15frameSeen(cs *h.Case, emitted, received map[int][]int, i int, n string, oc []string) {
+	if len(oc) != 3 || oc[0] != "data" {
+		cs.Fail("c15:frame-missing", fmt.Sprintf("op %d: the read loop of client %s was handed %q in the middle of the stream", i, n, strings.Join(oc, " ")))
+		return
+	}
+	k, _ := strconv.Atoi(oc[1])
+	v, _ := strconv.Atoi(oc[2])
+	received[k] = append(received[k], v)
+	m := len(received[k])
+	if m > len(emitted[k]) || emitted[k][m-1] != v {
+		cs.Fail("c15:order", fmt.Sprintf("op %d: client %s received %v on channel %d, the service emitted %v", i, n, received[k], k, emitted[k]))
+	}
+}
+
 func c15oracle(cs *h.Case) {
 	type cst struct {
 		emitted  map[int][]int
@@ -1069,7 +1127,22 @@ func c15oracle(cs *h.Case) {
 			if obs != "ok" {
 				cs.Fail("c15:hook-not-reached", fmt.Sprintf("op %d %q: %s", i, op, obs))
 			}
-		case "cread":
+		case "cread", "cdrain":
+			if tk[1] == "cdrain" {
+				// the values handed to the caller by the read loop, channel by channel in the order they came
+				parts := strings.SplitN(strings.TrimPrefix(obs, "drain"), " | ", 2)
+				for _, grp := range strings.Fields(parts[0]) {
+					kv := strings.SplitN(grp, ":", 2)
+					if len(kv) != 2 {
+						continue
+					}
+					for _, v := range strings.Split(kv[1], ",") {
+						c15frameSeen(cs, c.emitted, c.received, i, tk[2], []string{"data", kv[0], v})
+					}
+				}
+				obs = parts[len(parts)-1]
+				oc = strings.Fields(obs)
+			}
 			switch {
 			case len(oc) == 3 && oc[0] == "data":
 				k, _ := strconv.Atoi(oc[1])
@@ -1498,6 +1571,28 @@ func (g *c15g) readOptions(c string, ms, rounds int) []string {
 	return append(ops, "c15 svcclose "+c+" 0", "c15 creadopt "+c+" 0", "c15 wstop "+c+" 0")
 }
 
+// onet's client reading to the end with the usual loop (ReadMessage until an error): one or two channels,
+// bursts of every length, the further request sent through Client.Stream on the same connection; the loop
+// must hand back everything in order and end with the normal close
+func (g *c15g) drain(c string, n int, two bool) []string {
+	ops := []string{"c15 open " + c + " fresh", "c15 wstart " + c + " 0"}
+	if two {
+		ops = append(ops, "c15 csend "+c+" fresh", "c15 wstart "+c+" 1")
+	}
+	for i := 0; i < n; i++ {
+		k := 0
+		if two && g.c.Rng.Intn(2) == 0 {
+			k = 1
+		}
+		ops = append(ops, fmt.Sprintf("c15 emit %s %d %d", c, k, g.v()))
+	}
+	ops = append(ops, "c15 svcclose "+c+" 0")
+	if two {
+		ops = append(ops, "c15 svcclose "+c+" 1")
+	}
+	return append(ops, "c15 cdrain "+c, "c15 wstop "+c+" 0")
+}
+
 // the <ms> of `creadopt` that stands for StreamingConn.ReadMessage (deadline: five minutes from now)
 const c15readMessageMs = 300000
 
@@ -1637,6 +1732,9 @@ func c15genCases(c *h.Ctx, yield func(*h.Case)) {
 	emit("corpus:ping-while-writing", g.pingWhileWriting("b0", 5, 3072))
 	// seed C15r6-B: the client's read options are per read
 	emit("corpus:client-read-options", g.readOptions("m0", 2500, 1))
+	emit("corpus:client-drain", g.drain("m0", 7, false))
+	emit("corpus:client-drain", g.drain("m0", 12, true))
+	emit("corpus:client-drain", g.drain("m0", 0, false))
 	// a value the service emits that protobuf.Encode refuses (round 5 "still open", now modelled: Act.emitBad)
 	emit("corpus:unencodable-value", g.unencodable("s0", 2, false, true))
 	emit("corpus:unencodable-value", g.unencodable("s0", 1, true, true))
@@ -1683,6 +1781,7 @@ func c15genCases(c *h.Ctx, yield func(*h.Case)) {
 		if it%25 == 2 {
 			emit("ping-while-writing", g.pingWhileWriting("b0", 5+r.Intn(3), 2048+r.Intn(3)*1024))
 			emit("client-read-options", g.readOptions("m0", 1500+r.Intn(1500), 1+r.Intn(2)))
+			emit("client-drain", g.drain("m0", r.Intn(60), r.Intn(2) == 0))
 		}
 		if it%2 == 0 {
 			emit("nil-stop", g.withPings(g.nilStop("s0", r.Intn(5), 1+r.Intn(3), r.Intn(3),
